@@ -2,6 +2,7 @@ package props
 
 import (
 	"bytes"
+	"errors"
 	"fmt"
 	"strings"
 
@@ -219,7 +220,22 @@ func (m *verifMech) Next(resp []byte) ([]byte, bool, error) {
 }
 
 func histHooks(rig *wire.Rig) {
+	// Rejections come in three shapes, chosen by the digits of the unique argument: SMTPError
+	// with an enhanced code, SMTPError without one (the server must derive X.0.0 from the reply
+	// code's class), and a plain error (generic code, text preserved).
 	tok := func(code int, ec smtp.EnhancedCode, t string) error {
+		n := 0
+		for _, ch := range t {
+			if ch >= '0' && ch <= '9' {
+				n = n*10 + int(ch-'0')
+			}
+		}
+		switch n % 3 {
+		case 1:
+			return &smtp.SMTPError{Code: code, Message: t + " refused"}
+		case 2:
+			return errors.New(t + " refused (plain error)")
+		}
 		return &smtp.SMTPError{Code: code, EnhancedCode: ec, Message: t + " refused"}
 	}
 	rig.BE.H.NewSession = func(c *smtp.Conn, sess int) error {
@@ -552,6 +568,7 @@ func histMonitor(run *histRun) []hviol {
 		add("C04:reply-syntax", "greeting malformed: %v", run.Greet.Faults)
 	}
 	dataBegins, opens := 0, 0
+	rcptsSinceReset := 0
 	for i, o := range run.Obs {
 		next := run.EndSeq
 		if i+1 < len(run.Obs) {
@@ -851,6 +868,18 @@ func histMonitor(run *histRun) []hviol {
 			}
 			if len(rs) > 0 && rs[0].Class() != 5 {
 				add("C03:malformed-not-5xx", "%s: malformed command answered %s", name, codes(rs))
+			}
+		}
+		// I4 from the backend's point of view, judged even inside an unjudged ("tainted")
+		// transaction: between two Reset/Logout signals the number of recipients the server
+		// acknowledged never exceeds the configured maximum.
+		if len(resets)+len(logouts) > 0 {
+			rcptsSinceReset = 0
+		}
+		if c.Kind == "rcpt" && all2xx(rs) {
+			rcptsSinceReset++
+			if h.MaxRcpt > 0 && rcptsSinceReset > h.MaxRcpt {
+				add("C03:recipient-limit", "%s: %d recipients accepted since the last Reset with MaxRecipients=%d", name, rcptsSinceReset, h.MaxRcpt)
 			}
 		}
 		if dataBegins > opens {
